@@ -25,7 +25,9 @@ THEOREMS = [
 ]
 RULE = ("Pauli lists on 0-8 qubits with all four phases; arbitrary index subsets/orders (restrict), arbitrary hashable labels "
         "(decompose), final circuits interleaving fresh qubits among the originals across registers (expand), plus count-mismatch and "
-        "missing-qubit requests; expand call sequences (expand, edit the returned or the input list in place, expand again); non-trivial = some non-identity letter; distinct by payload")
+        "missing-qubit requests; expand call sequences (expand, edit the returned or the input list in place, expand again); deterministic families (oracle on every case): phased observables over "
+        "one-label / two-label / one-label-per-qubit partitions (every restriction has phase 0), loops expanding one original circuit onto many short-lived "
+        "same-size final circuits (each call judged against the final circuit of that call, missing-qubit steps refused); non-trivial = some non-identity letter; distinct by payload")
 ASSUMPTIONS = ["Qiskit PauliList label order (little endian) and group-phase convention are undone by the adapter",
                "qubit identity (Python object identity of Qubit) is modelled by integer tokens"]
 PH = ["", "-i", "-", "i"]
@@ -130,7 +132,59 @@ def _odd_label_cases():
                              "always_oracle": True})
 
 
+def _one_label_cases():
+    """Deterministic family (seed independent): decompose_observables with observables that carry EVERY phase, over partitions with
+    exactly one distinct label (what the un-separated paths of generate_cutting_experiments / reconstruct_expectation_values pass:
+    "A" * n), with two labels and with one label per qubit.  Every restriction must have dropped the phase."""
+    import random
+    r = random.Random(171713)
+    shapes = ["one", "one", "two", "each"]
+    for t in range(12):
+        n = 1 + t % 6
+        k = 1 + t % 4
+        # the first observable always has a non-trivial phase; lists of four carry all four phases
+        obs = [{"l": "".join(r.choice("IXYZ") for _ in range(n)), "p": (1 + t + i) % 4 if i else 1 + t % 3} for i in range(k)]
+        shape = shapes[t % 4] if n > 1 else "one"
+        if shape == "one":
+            pool_idx, labels = [t % _OLD_LABELS], [0] * n
+        elif shape == "two":
+            pool_idx = [t % _OLD_LABELS, (t + 3) % _OLD_LABELS]
+            labels = [0] + [r.randrange(2) for _ in range(n - 2)] + [1]
+        else:
+            # one label per qubit, first seen in descending order of the pool
+            pool_idx = [(t + i) % _OLD_LABELS for i in range(n)]
+            labels = list(range(n))[::-1]
+        yield ("decompose", {"n": n, "obs": obs, "labels": labels, "pool": [repr(LABELS[i]) for i in pool_idx], "pool_idx": pool_idx,
+                             "always_oracle": True})
+
+
+def _loop_cases():
+    """Deterministic family (seed independent): ONE original circuit expanded onto MANY short-lived final circuits in a row (as when
+    several cut placements are tried): every final circuit has the same number of qubits, holds the original qubits at different
+    positions (fresh ones in between, in some steps one original qubit is missing), is expanded onto right after it was built and is
+    dropped before the next one is built.  Every single call must place the letters where the qubits are in the final circuit of THAT call."""
+    import random
+    r = random.Random(171714)
+    for j, (n, fresh, steps) in enumerate([(3, 2, 10), (2, 1, 10), (5, 3, 8), (1, 2, 8), (4, 0, 8), (6, 4, 6)]):
+        k = 1 + j % 3
+        obs = [{"l": "".join(r.choice("XYZ") if i == 0 else r.choice("IXYZ") for _ in range(n)), "p": (j + i) % 4} for i in range(k)]
+        layouts = []
+        for s_ in range(steps):
+            lay = [["o", i] for i in range(n)] + [["f", i] for i in range(fresh)]
+            r.shuffle(lay)
+            if j % 2 == 0 and s_ in (steps // 2, steps - 1):
+                # same size, but one original qubit is replaced by a fresh one: this call has to be refused
+                gone = r.randrange(n)
+                lay = [["f", fresh] if t == ["o", gone] else t for t in lay]
+            layouts.append(lay)
+        regs = [n] if j % 2 else ([1, n - 1] if n > 1 else [1])
+        yield ("expand_loop", {"n": n, "obs": obs, "layout": layouts[0], "layouts": layouts, "regs": regs, "final_regs": False,
+                               "clbits": 0, "creg": 0, "always_oracle": True})
+
+
 def cases(rng, tier):
+    yield from _loop_cases()
+    yield from _one_label_cases()
     yield from _seq_cases()
     yield from _odd_label_cases()
     yield from _main_cases(rng, tier)
@@ -264,6 +318,23 @@ def run_real(kind, payload):
         labels = [gen.fresh(pool[i]) for i in payload["labels"]]
         out = decompose_observables(_plist(payload["obs"], payload["n"]), labels)
         return {"ok": [[payload["labels"][labels.index(l)], _canon_paulis(v)] for l, v in out.items()]}
+    if kind == "expand_loop":
+        import gc
+        from qiskit.circuit import QuantumCircuit, QuantumRegister
+        regs = [QuantumRegister(c, f"r{i}") for i, c in enumerate(payload["regs"])]
+        orig = QuantumCircuit(*regs)
+        pl = _plist(payload["obs"], payload["n"])
+        calls = []
+        for lay in payload["layouts"]:
+            # the final circuit of this step lives only for this step
+            final = _final_for(orig, regs, lay, payload)
+            try:
+                calls.append(_canon_paulis(expand_observables(pl, orig, final)))
+            except ValueError:
+                calls.append("ValueError")
+            del final
+            gc.collect()
+        return {"ok": {"calls": calls}}
     orig, final = _expand_objs(payload)
     nq = len(payload["obs"][0]["l"])
     if kind == "expand_seq":
@@ -289,6 +360,9 @@ def model_canon(kind, payload, out):
 def compare(kind, payload, real, model):
     if kind == "expand_seq" and isinstance(real.get("ok"), dict):
         real = {"ok": real["ok"]["first"]}    # the model describes the first expansion; the rest of the sequence is judged by the oracle
+    if kind == "expand_loop" and isinstance(real.get("ok"), dict):
+        first = real["ok"]["calls"][0]        # likewise: the model describes the first call of the loop
+        real = {"error": "ValueError"} if first == "ValueError" else {"ok": first}
     if real != model:
         return f"real={json.dumps(real)[:300]} model={json.dumps(model)[:300]}"
     return None
@@ -296,7 +370,7 @@ def compare(kind, payload, real, model):
 
 def describe(kind, payload):
     d = {"n": payload["n"]}
-    if kind == "expand":
+    if kind in ("expand", "expand_loop"):
         d["fresh"] = sum(1 for t, _ in payload["layout"] if t == "f")
     return d
 
@@ -330,6 +404,32 @@ def oracle(kind, payload):
                 return f"restrictions recombine to {rebuilt}, original {o['l']}"
         if sorted(l for l, _ in real["ok"]) != sorted(set(labels)):
             return "sub-observable keys differ from the set of labels"
+        # "... and drops the phase": every restriction is a bare string of letters, whatever phase the observable had
+        for lab, subs in real["ok"]:
+            for o_idx, (o, sub) in enumerate(zip(payload["obs"], subs)):
+                if sub["p"] != 0:
+                    return (f"decompose_observables over labels {[payload['pool'][l] for l in labels]}: the restriction of observable "
+                            f"#{o_idx} ({PH[o['p']]}{o['l']}, qubit 0 first) to partition {payload['pool'][lab]} is "
+                            f"{PH[sub['p']]}{sub['l']}: the phase was not dropped")
+        return None
+    if kind == "expand_loop":
+        if "error" in real:
+            return f"loop of expansions raised {real['error']}"
+        n = payload["n"]
+        for step, (lay, got) in enumerate(zip(payload["layouts"], real["ok"]["calls"])):
+            lay = [tuple(t) for t in lay]
+            where = [lay.index(("o", i)) if ("o", i) in lay else None for i in range(n)]
+            if None in where:
+                if got != "ValueError":
+                    return (f"call #{step} of a loop over short-lived final circuits (one original circuit, each final circuit dropped "
+                            f"before the next is built): original qubit {where.index(None)} is missing from this final circuit "
+                            f"(layout {lay}), not refused with ValueError: {got}")
+                continue
+            exp = [{"l": "".join(o["l"][i] if t == "o" else "I" for t, i in lay), "p": o["p"]} for o in payload["obs"]]
+            if got != exp:
+                return (f"call #{step} of a loop over short-lived final circuits (one original circuit, each final circuit dropped "
+                        f"before the next is built): the original qubits sit at positions {where} of {len(lay)} in THIS final circuit; "
+                        f"expansion gives {got}, expected {exp}")
         return None
     # expand
     n = payload["n"]
